@@ -123,7 +123,7 @@ def main():
         }],
         "checks": checks,
         "not_applicable": na,
-        "notes": "Every check rebuilds the checker from /verif/checker and analyses /repo's current working tree; nothing executes dig. Exit 0 = all obligations discharged (known findings printed as KNOWN-FINDING), exit 1 = VIOLATION, exit 2 = UNDECIDED (anchor unresolvable / load failure).",
+        "notes": "Every check rebuilds the checker from /verif/checker and analyses /repo's current working tree; nothing executes dig. Exit 0 = all obligations discharged (known findings printed as KNOWN-FINDING), exit 1 = a line 'VIOLATION property=<id> replay=<path>' for every new violation and for every UNDECIDED obligation (an anchor that does not resolve even after canonicalisation, an instance floor not met, a tree that does not load or type-check: the replay file then says 'undecided' and why).",
     }
     json.dump(m, open("/verif/MANIFEST.json", "w"), indent=1)
     print("claimed", len(checks), "not_applicable", len(na))
